@@ -412,6 +412,17 @@ def correspondence(rep, rx, plats, rng, thorough, info_all):
                 base = sample_member(rx, ob, rng, 10) or b"r1#"
                 strings.append(lit.encode("latin-1", "replace") + base)
                 strings.append(base[:1] + lit.encode("latin-1", "replace") + base[1:])
+            # case variants of every not_contains entry of the table, planted in the host part of a member: scrapli compares
+            # them case-sensitively, so the upper-case ones are ordinary members of the grammar (oracle applies)
+            ncs = sorted({nc for lv in pl["info"]["tables"][ob["table"]]["levels"] for nc in lv[2]})
+            for nc in ncs:
+                base = sample_member(rx, ob, rng, 10)
+                if not base:
+                    continue
+                for var in (nc.upper(), nc.title(), nc):
+                    core = "".join(ch for ch in var if ch.isalnum() or ch in "-_.")
+                    if core:
+                        strings.append(base[:1] + core.encode("latin-1", "replace") + base[1:])
             for s in strings:
                 t = s.decode("latin-1")
                 got = real_classify(ds, t)
